@@ -16,7 +16,7 @@ ASSUMPTIONS = ['divisor base coefficients bounded away from 0 (|y_0| >= 0.5)', '
 
 OPS = {'add': operator.add, 'sub': operator.sub, 'mul': operator.mul, 'div': operator.truediv}
 IOPS = {'add': operator.iadd, 'sub': operator.isub, 'mul': operator.imul, 'div': operator.itruediv}
-SCALARS = ['int', 'float', 'complex', 'np.float64', 'np.complex128', 'np.int64']
+SCALARS = ['int', 'float', 'complex', 'np.float64', 'np.complex128', 'np.int64', 'np.float32', 'np.float16', 'np.complex64']
 
 
 def mk_scalar(rng, kind, nz=False):
@@ -29,7 +29,13 @@ def mk_scalar(rng, kind, nz=False):
         return float(v)
     if kind == 'np.float64':
         return np.float64(v)
+    if kind in ('np.float32', 'np.float16'):
+        # exactly representable in the narrow type, reciprocal not (3, 5, 0.75, ...)
+        w = rng.choice([3.0, -1.5, 0.75, 5.0, -6.0, 2.0])
+        return np.float32(w) if kind == 'np.float32' else np.float16(w)
     im = rng.choice([0.5, -1.0, 2.0])
+    if kind == 'np.complex64':
+        return np.complex64(complex(rng.choice([3.0, -1.5, 0.75]), im))
     if kind == 'complex':
         return complex(v, im)
     return np.complex128(complex(v, im))
@@ -119,11 +125,17 @@ def obj(a):
         return np.complex128(v)
     if sk == 'np.int64':
         return np.int64(v)
+    if sk == 'np.float32':
+        return np.float32(v)
+    if sk == 'np.float16':
+        return np.float16(v)
+    if sk == 'np.complex64':
+        return np.complex64(v)
     return v
 
 
 def is_cplx(a):
-    return bool(np.iscomplexobj(np.asarray(a['v'])) or a.get('sk') in ('complex', 'np.complex128'))
+    return bool(np.iscomplexobj(np.asarray(a['v'])) or a.get('sk') in ('complex', 'np.complex128', 'np.complex64'))
 
 
 def run_impl(case):
@@ -233,7 +245,7 @@ def model_dtype(ctx, case):
     else:
         sk = o['sk']
         kind = {'int': 'pyint', 'float': 'pyfloat', 'complex': 'pycomplex'}.get(sk, 'npscalar')
-        dt = {'np.float64': 'f64', 'np.complex128': 'c128', 'np.int64': 'i64'}.get(sk, 'f64')
+        dt = {'np.float64': 'f64', 'np.complex128': 'c128', 'np.complex64': 'c128', 'np.int64': 'i64'}.get(sk, 'f64')
     req = {'op': 'dtype', 'aop': case['op'], 'self': dtname(np.array(u['v']).dtype), 'kind': kind, 'dt': dt, 'refl': refl}
     r = ctx.model.ask(req)
     return r.get('dt')
@@ -419,7 +431,7 @@ def run(ctx):
 
 def systematic_pow(ctx):
     """every non-negative Python-int exponent at base points 0, negative and positive, D >= 2"""
-    for v in range(0, 5):
+    for v in list(range(0, 5)) + [7, 15, 16, 17, 24]:
         case = gen_pow(ctx.rng, ctx.tier)
         while case['D'] < 2 or np.array(case['x'])[0].size == 0:
             case = gen_pow(ctx.rng, ctx.tier)
